@@ -54,7 +54,9 @@ func ClassifyPanic(r interface{}, out *Outcome) { classifyPanic(r, out) }
 // BudgetExceeded is the sentinel panic raised by the step counter.
 type BudgetExceeded struct{ Steps int64 }
 
-func (b BudgetExceeded) Error() string { return fmt.Sprintf("step budget exceeded after %d function entries", b.Steps) }
+func (b BudgetExceeded) Error() string {
+	return fmt.Sprintf("step budget exceeded after %d function entries", b.Steps)
+}
 
 func NewOpCtx(key uint64, budget int64) *OpCtx {
 	return &OpCtx{Key: key, Budget: budget, arrivals: map[string]int{}}
